@@ -34,7 +34,7 @@ def main():
     for i in ids:
         d = ROOT + "/seeded/" + i
         meta = json.load(open(d + "/meta.json"))
-        prop = meta.get("breaks_property") or i.replace("R2-", "").replace("R3-", "").split("-")[0]
+        prop = meta.get("breaks_property") or i.split("-")[-2]
         try:
             rc, o = sh("git -C /repo apply --whitespace=nowarn %s/patch.diff" % d)
             if rc != 0:
